@@ -303,12 +303,16 @@ Proof.
   intros Hi H. unfold send_event in H.
   destruct (String.eqb ev Ev_Done).
   { apply ret_inv in H. destruct H as (H & _ & ->). inversion H; subst. auto. }
+  destruct (next_state t (m_cur m) ev).
+  2:{ apply ret_inv in H. destruct H as (H & _ & ->). inversion H; subst. auto. }
   destruct ctx as [c|].
   - destruct (validate_ctx (m_data m) c); cbn [negb] in H.
     + destruct (apply_ctx (m_data m) c) as [d'|].
       * eapply ptl_fx; [|exact H]. exact Hi.
       * apply ret_inv in H. destruct H as (H & _ & ->). inversion H; subst. auto.
-    + eapply ptl_fx; eauto.
+    + unfold accepted_then_loop in H. destruct (next_state t (m_cur m) Ev_Invalid).
+      * eapply ptl_fx; eauto.
+      * apply ret_inv in H. destruct H as (H & _ & ->). inversion H; subst. auto.
   - eapply ptl_fx; eauto.
 Qed.
 
